@@ -40,19 +40,21 @@ pub(crate) fn custom_tap_hold_except(
     let keys = a.sref_vec(Vec::from_iter(keys.iter().copied()));
     a.sref(
         move |mut queued: QueuedIter| -> (Option<WaitingAction>, bool) {
+            let mut other_key_pressed = false;
             for q in queued.by_ref() {
                 if q.event().is_press() {
                     let (_i, j) = q.event().coord();
-                    // If any key matches the input, do a tap.
+                    // If any key matches the input, do a tap. That holds for every press while
+                    // waiting, also for one that comes after the press of a key that is not listed.
                     if keys.iter().copied().map(u16::from).any(|j2| j2 == j) {
                         return (Some(WaitingAction::Tap), false);
                     }
                     // Otherwise continue with default behavior
-                    return (None, false);
+                    other_key_pressed = true;
                 }
             }
-            // Otherwise skip timeout
-            (None, true)
+            // Without any other key pressed, skip timeout
+            (None, !other_key_pressed)
         },
     )
 }
